@@ -552,6 +552,12 @@ func (p *Program) axiomsFor(vc *VC) []string {
 			included[idx] = true
 			changed = true
 			out = append(out, tv.T)
+			if hasProp(ax.Props, "scoped") {
+				if vc.axiomTags == nil {
+					vc.axiomTags = map[string][]string{}
+				}
+				vc.axiomTags[tv.T] = ax.Props
+			}
 			text += "\n" + tv.T
 		}
 	}
